@@ -160,6 +160,9 @@ func readFindings(path string) []Finding {
 	return out
 }
 
+// a clause named "[... @C10]" is an obligation of property C10 only
+var onlyProp = regexp.MustCompile(`@(C[0-9][0-9])`)
+
 type workItem struct {
 	fi    *FuncInfo
 	lemma *Lemma
@@ -196,13 +199,30 @@ func propItems(w *World, prop string, cfg PropConfig) ([]workItem, error) {
 		}
 	}
 	for _, pat := range cfg.Sweep {
-		re, err := regexp.Compile("^(?:" + pat + ")$")
-		if err != nil {
-			return nil, err
+		var re *regexp.Regexp
+		fileSuffix := ""
+		if strings.HasPrefix(pat, "file:") {
+			fileSuffix = "/" + strings.TrimPrefix(pat, "file:")
+		} else {
+			var err error
+			re, err = regexp.Compile("^(?:" + pat + ")$")
+			if err != nil {
+				return nil, err
+			}
 		}
 		matched := false
 		for _, key := range sortedKeys(w.Funcs) {
-			if re.MatchString(key) {
+			hit := false
+			if fileSuffix != "" {
+				fn := w.Fset.Position(w.Funcs[key].Body.Pos()).Filename
+				hit = strings.HasSuffix(fn, fileSuffix) && strings.HasPrefix(fn, w.RepoDir)
+				if hit && !strings.HasSuffix(strings.TrimPrefix(fn, w.RepoDir), fileSuffix) {
+					hit = false
+				}
+			} else {
+				hit = re.MatchString(key)
+			}
+			if hit {
 				matched = true
 				if !seen[key] {
 					seen[key] = true
@@ -279,10 +299,14 @@ func cmdCheck(o options, prop string) int {
 		}
 		n := 0
 		for _, ob := range r.Obligs {
+			if m := onlyProp.FindStringSubmatch(ob.Anchor); m != nil && m[1] != prop {
+				n++ // claimed under another property only
+				continue
+			}
 			if it.sweep && it.fi.Spec == nil {
 				// sweep: safety classes only
 				switch ob.Class {
-				case "panic", "vacuity":
+				case "panic", "vacuity", "guarded-by", "pre":
 				default:
 					continue
 				}
